@@ -125,6 +125,7 @@ func extractEvents(repo string, o *leanOut) {
 		{"ev_channel_free", "mpx", "*channel", "free", chanMarks},
 		{"ev_channel_Free", "mpx", "*channel", "Free", chanMarks},
 		{"ev_channel_receive", "mpx", "*channel", "receive", chanMarks},
+		{"ev_channel_closeUser", "mpx", "*channel", "closeUser", []string{"acquire", "release", ".close", "sendClose", "sender.", ".closed.", "sendMu", "panic"}},
 		{"ev_channel_ReceiveAsync", "mpx", "*channel", "ReceiveAsync", []string{"recvBytes", "recvQueue", "sendWindow", ".closed."}},
 		{"ev_channel_Receive", "mpx", "*channel", "Receive", []string{"ReceiveAsync", "ReceiveWait"}},
 		{"ev_channel_ReceiveWait", "mpx", "*channel", "ReceiveWait", []string{"recvQueue", "acquire", "release"}},
